@@ -409,7 +409,9 @@ static void runSequential(pbt::Case &c, std::size_t cap, unsigned nsess, std::si
       bool ret = h.tr->setReadMode(sid, target);
       if (!ret)
       {
-        c.fail("C03/setReadMode-refused", pbt::Fmt() << "setReadMode(" << modeName(target) << ") returned false");
+        // (only generated for sessions whose close has NOT been delivered: a refusal on a closed session
+        // would be legal - the statement does not ask for mode switches after the close)
+        c.fail("C03/setReadMode-refused", pbt::Fmt() << "setReadMode(" << modeName(target) << ") returned false for an open session");
         return;
       }
       if (target != m.mode) sawSwitch = true;
@@ -604,6 +606,7 @@ static void runConcurrent(pbt::Case &c, const ConcPlan &p)
   };
   std::vector<ChunkStamp> stamps(p.io.size());
   std::atomic<std::uint64_t> closeFiredAtNs{0};
+  std::atomic<bool> closeDispatchBegun{false}; // set by the I/O thread right BEFORE it hands onClose to the transport
   std::atomic<bool> ioDone{false};
   auto nowNs = [] {
     return static_cast<std::uint64_t>(std::chrono::duration_cast<std::chrono::nanoseconds>(
@@ -645,6 +648,7 @@ static void runConcurrent(pbt::Case &c, const ConcPlan &p)
           std::this_thread::sleep_for(std::chrono::milliseconds(3));
         }
         if (p.closeDelayUs) std::this_thread::sleep_for(std::chrono::microseconds(p.closeDelayUs));
+        closeDispatchBegun.store(true);
         eng->fireClose(sid, TransportError::PeerClosed, "peer closed");
         closeFiredAtNs.store(nowNs());
       }
@@ -668,7 +672,7 @@ static void runConcurrent(pbt::Case &c, const ConcPlan &p)
   bool inDisabled = false;
   std::size_t recvLen = 0; // bytes obtained through receiveSync
   bool overflowSeen = false, eofSeen = false;
-  unsigned nData = 0, nTimeout = 0, nFlushBytes = 0;
+  unsigned nData = 0, nTimeout = 0, nFlushBytes = 0, nRefusedAfterClose = 0;
   std::string failSig, failWhat;
   auto fail = [&](const std::string &sig, const std::string &what) {
     if (failSig.empty())
@@ -761,18 +765,37 @@ static void runConcurrent(pbt::Case &c, const ConcPlan &p)
       receive(a.len, a.tmoMs);
     else if (a.kind == 1)
     {
+      bool openedWindow = false;
       if (a.mode == ReadMode::Disabled && !inDisabled)
       {
         disabledWin.push_back(Window{++clk, ~0ull});
         inDisabled = true;
+        openedWindow = true;
       }
       std::size_t before;
       {
         std::lock_guard<std::mutex> lk(logMu);
         before = log.size();
       }
-      if (!tr->setReadMode(sid, a.mode)) fail("C03/setReadMode-refused", "setReadMode returned false");
-      if (a.mode != ReadMode::Disabled && inDisabled)
+      bool applied = tr->setReadMode(sid, a.mode);
+      if (!applied)
+      {
+        // A switch may be refused for a session whose close has been (or is being) delivered - the
+        // statement does not ask for mode switches on a closed session. The flag is read AFTER the
+        // call returned and is set by the I/O thread BEFORE it dispatches onClose: if it is still
+        // false the session was provably open during the whole call. A refused switch changes nothing.
+        if (!closeDispatchBegun.load())
+          fail("C03/setReadMode-refused", pbt::Fmt() << "setReadMode(" << modeName(a.mode)
+                                                     << ") returned false for a session whose close had not been dispatched yet");
+        else
+          ++nRefusedAfterClose;
+        if (openedWindow)
+        {
+          disabledWin.pop_back();
+          inDisabled = false;
+        }
+      }
+      if (applied && a.mode != ReadMode::Disabled && inDisabled)
       {
         disabledWin.back().e = ++clk;
         inDisabled = false;
@@ -901,6 +924,7 @@ static void runConcurrent(pbt::Case &c, const ConcPlan &p)
   if (overflowSeen) c.label("BufferOverflow reported");
   if (nFlushBytes) c.label("flush handed buffered bytes");
   if (!disabledWin.empty()) c.label("Disabled window");
+  if (nRefusedAfterClose) c.label("mode switch refused after the close");
   if (p.closeAfterParked && eofSeen) c.label("close delivered to a parked receiver");
   if (!p.io.empty() && (nData || nFlushBytes))
   {
